@@ -41,6 +41,38 @@ def fixed_cuts(total, size):
     return list(range(size, total, size))
 
 
+def structural_cuts(rng, tail, ds):
+    """cuts placed relative to the structure of the stream: a few bytes into an identification line, right after a
+    line end, around '!' — optionally after a long stretch without any cut (one big read() call)"""
+    pos = len(tail)
+    marks = []
+    for d in ds:
+        man, baud, escs, ident, lines, c = d
+        ident_len = 1 + 3 + 1 + 2 * len(escs) + len(ident) + 2
+        body = ident_len + sum(len(l) + 2 for l in lines)
+        total = body + 1 + (4 if c != "N" else 0) + 2
+        marks.append((pos, ident_len, body, total))
+        pos += total
+    cuts = set()
+    mode = rng.randrange(3)
+    start = rng.randrange(len(marks)) if mode else 0
+    for k, (p0, il, body, total) in enumerate(marks):
+        if k < start:
+            continue          # one big call up to here
+        r = rng.randrange(5)
+        if r == 0:
+            cuts.add(p0 + rng.randint(1, max(1, il - 1)))       # inside the identification line
+        elif r == 1:
+            cuts.add(p0 + il)                                     # right after it
+        elif r == 2:
+            cuts.add(p0 + body + rng.choice([0, 1, 2]))          # around '!'
+        elif r == 3:
+            cuts.add(p0 + total)                                  # between two readouts
+        if mode == 2 and k == start:
+            cuts.add(p0 + rng.randint(1, max(1, il - 1)))
+    return sorted(c for c in cuts if 0 < c < pos)
+
+
 def gen_case(rng, big=False, nread=None):
     n = nread if nread is not None else rng.choice([1, 1, 2, 3, 6])
     ds = [P.gen_desc(rng, big=big and rng.random() < 0.5) for _ in range(n)]
@@ -51,8 +83,10 @@ def gen_case(rng, big=False, nread=None):
         if b"/" in tail:
             tail = tail.replace(b"/", b"_")
     est = len(tail) + sum(40 + sum(len(l) + 2 for l in d[4]) for d in ds)
-    mode = rng.randrange(5)
-    if mode == 0:
+    mode = rng.randrange(7)
+    if mode >= 5:
+        cuts = structural_cuts(rng, tail, ds)
+    elif mode == 0:
         cuts = []
     elif mode == 1:
         cuts = fixed_cuts(est + 64, rng.choice([1, 7, 100, 4096]) if est < 3000 else rng.choice([7, 100, 1000, 4096]))
@@ -72,6 +106,10 @@ def run(res, tier, seed, widen=1):
     # long streams (hundreds of KiB in thorough)
     for _ in range(2 if tier == "quick" else 30):
         cases.append(gen_case(rng, big=True, nread=(12 if tier == "quick" else 60)))
+    # one big read() call (> 8 KiB) that ends a few bytes into the next identification line
+    for _ in range(60 if tier == "quick" else 1500):
+        ds = [P.gen_desc(rng, big=rng.random() < 0.3) for _ in range(rng.choice([20, 40, 60]))]
+        cases.append((b"", ds, structural_cuts(rng, b"", ds)))
     for i in range(0, len(cases), 500):
         _run_cases(res, cases[i:i + 500], "generated")
 
